@@ -26,6 +26,8 @@ func factsWire() {
 	emitFuncDigests("f_src_message_go", "bus/net/message.go")
 	emitFuncDigests("f_src_metaobject_gen_go", "type/object/metaobject_gen.go")
 	emitFuncDigests("f_src_authenticate_go", "bus/authenticate.go")
+	emitFuncDigests("f_src_type_go", "meta/signature/type.go")
+	emitFuncDigests("f_src_signature_go", "meta/signature/signature.go")
 	emitN("f_MaxStringSize", uint64(basic.MaxStringSize))
 	emitN("f_rawValueMaxSize", uint64(value.VerifRawValueMaxSize))
 	emitN("f_listValueMaxSize", uint64(value.VerifListValueMaxSize))
